@@ -234,9 +234,26 @@ def run(P, R, tier):
     unwraps = []
     for s_ in walk_own(tga.node):
         if isinstance(s_, ast.If) and 'is_geometry_array(' in norm(s_.test) and not norm(s_.test).startswith('not '):
-            for b_ in s_.body:
-                if isinstance(b_, ast.Assign) and any(isinstance(t, ast.Name) and t.id == tga.params[0] for t in b_.targets):
-                    unwraps.append(b_)
+            for b0_ in s_.body:
+                for b_ in ast.walk(b0_):
+                    if isinstance(b_, ast.Assign) and any(isinstance(t, ast.Name) and t.id == tga.params[0] for t in b_.targets):
+                        unwraps.append(b_)
+    # ... and the labels are read from the input BEFORE the input is replaced by its array
+    import cfg as _cfg
+    Cg = _cfg.build(gsi.node)
+    dp_ = gsi.params[1] if len(gsi.params) > 1 else 'data'
+    reads = [s_ for s_ in walk_own(gsi.node) if isinstance(s_, ast.Assign) and any(isinstance(t, ast.Name) and t.id == ip_ for t in s_.targets)
+             and any((isinstance(x, ast.Call) and norm(x.func) == 'getattr' and len(x.args) >= 2 and norm(x.args[0]) == dp_ and astq.const_str(x.args[1]) == 'index')
+                     or (isinstance(x, ast.Attribute) and x.attr == 'index' and norm(x.value) == dp_) for x in ast.walk(s_.value))]
+    convs = [s_ for s_ in walk_own(gsi.node) if isinstance(s_, ast.Assign) and any(isinstance(t, ast.Name) and t.id == dp_ for t in s_.targets)
+             and any(isinstance(x, ast.Call) and astq.is_call_to(P, gsi, x, tga) for x in ast.walk(s_.value))]
+    late = [(r_, c_) for r_ in reads for c_ in convs if Cg.node(c_) is not None and Cg.node(r_) is not None and Cg.can_reach(Cg.node(c_), Cg.node(r_))]
+    if late and unwraps:
+        R.bad('C11.g', gsi, late[0][0], f'`{norm(late[0][0])}` reads the labels from `{dp_}` after `{norm(late[0][1])[:60]}` replaced it, and to_geometry_array unwraps Series-like geometry data '
+              f'(`{norm(unwraps[0])}`): the labels of the input are gone, the series gets 0..n-1 and GeoDataFrame.__init__ re-aligns the column by label - geometries move to other rows',
+              construct='GeoSeries reads the labels before converting the data')
+    elif reads:
+        R.ok('C11.g', gsi, reads[0], 'the labels of a Series-like input are read before the data is converted (or the conversion keeps Series-like data)', construct='GeoSeries reads the labels before converting the data')
     if drops and unwraps:
         R.bad('C11.g', gsi, drops[0][0], f'GeoSeries drops the input\'s index under `{drops[0][1]}` (any RangeIndex, also a sliced one such as 3..n) while to_geometry_array unwraps Series-like '
               f'geometry data (`{norm(unwraps[0])}`): the labels are replaced by 0..n-1, and GeoDataFrame.__init__ (used by read_parquet) re-aligns the geometry column by label against the '
